@@ -21,7 +21,10 @@ def run(F, chk):
     fns = cover.reach_functions(F, diff.path, depth=2)
     # ---------------- R-C06-a --------------------------------------------------
     ra = chk.rule("R-C06-a", "T7a", "diff reads every ConfigState component on both self and other", floor=22)
-    reads, roots = cover.body_field_reads(diff, STATE)
+    import lib
+    fdiff = lib.flat(F, diff)                                            # sections moved into private helpers still count
+    reads, roots0 = cover.body_field_reads(fdiff, STATE)
+    roots = {k: {cover.root_param(fdiff, l) for l in ls} for k, ls in roots0.items()}
     fam_reads = set()
     for p in fns:
         r, _ = cover.body_field_reads(F.body(p), STATE)
